@@ -65,7 +65,12 @@ Seqs(n, k) == IF n = 0 THEN {<<>>} ELSE {Append(h, c) : h \in Seqs(n - 1, k), c 
 \* twice (the two results must be equal) and the dump afterwards must equal the dump before.
 MPrelude == "VI = 1; VD = 2.5; VS = \"s\"; VB = true; VT = tab(2, 1); VTS = tab(2, \"a\"); VU = tup(1, \"a\", 2.5); VR = raw(\"ab\"); VZ = 2 + 3 * ii;\n"
             \o "VTT = tab(2, tab(1, 1)); VTU = tab(2, tup(1, \"a\")); VTD = tab(2, 1.5); VNI = int(); VNS = str(); VNB = bool(); VN = null; if false then VUN = true; VUS = \"u\"; end if;\n"
-            \o "function FO(X) return undefined is begin return X; end;\nfunction FT(X) return undefined is begin Y = X; return typeof(Y); end;"
+            \o "function FO(X) return undefined is begin return X; end;\nfunction FT(X) return undefined is begin Y = X; return typeof(Y); end;\n"
+            \* locals and parameters of a call are places too: a local that is set on one path only, read (twice) before it is set;
+            \* the second evaluation of FL(..) runs in the recycled context of the first
+            \o "function FL(N) return undefined is begin if N > 100 then L = \"big\"; M = 5; end if; "
+            \o "return tup(isnull(L), isnull(L), typeof(L), typeof(L), isnull(M + 1), isnull(M + 1), isnull(L + \"x\"), isnull(L), isnull(not (M == 1)), isnull(M), isnull(N), N + 0, N + 0); end;\n"
+            \o "function FP(P, Q) return undefined is begin return tup(isnull(P), isnull(P), isnull(Q), isnull(Q), typeof(P), typeof(P), isnull(P == Q), isnull(P), typeof(Q)); end;"
 Places == << "VI", "VD", "VS", "VB", "VR", "VZ", "VNI", "VNS", "VNB", "VN", "VUN", "VUS", "VT", "VU", "VT.at(0)", "VTS.at(1)", "VTD.at(0)", "VU@1", "VU@2", "VU@3",
              "VTT.at(0).at(0)", "VTT.at(1)", "VTU.at(1)@1", "VTU.at(1)@2", "VTU.at(0)", "ii", "null", "\"lit\"", "7", "2.5" >>
 Temps == << "(VD + VD)", "(VI * VI)", "num(2)", "(VS + VS)", "FO(VI)", "FO(VD)", "(VZ + VZ)", "int()", "bool()" >>
@@ -73,10 +78,20 @@ MOps == << "+", "-", "*", "/", "%", "**", "&", "|", "^", "<<", ">>", "==", "!=",
 MUn(x) == << "isnull(" \o x \o ")", "typeof(" \o x \o ")", "str(" \o x \o ")", "not " \o x, "-" \o x, "(" \o x \o ").count()", "FO(" \o x \o ")", "FT(" \o x \o ")",
              "tup(" \o x \o ", 1)", "tab(1, " \o x \o ")", "num(" \o x \o ")", "int(" \o x \o ")", "bool(" \o x \o ")", "raw(" \o x \o ")", "abs(" \o x \o ")",
              "(" \o x \o ").concat(" \o x \o ")" >>
+SFns == {<<"str(", ")">>, <<"FO(", ")">>, <<"upper(", ")">>, <<"lower(", ")">>, <<"trim(", ")">>, <<"ltrim(", ")">>, <<"rtrim(", ")">>, <<"substr(", ", 0)">>, <<"lsubstr(", ", 9)">>,
+         <<"rsubstr(", ", 9)">>, <<"replace(", ", \"q\", \"r\")">>, <<"(", " + \"\")">>, <<"tup(", ", 1)@1">>, <<"tab(1, ", ").at(0)">>}
+SPlaces == {"VS", "VTS.at(1)", "VU@2", "VTU.at(1)@2", "\"lit\""}
+SMuts == {".concat(\"!\")", ".insert(0, \"!\")", ".delete(0)", ".put(0, 65)"}
 MExprs == {Places[l] \o " " \o MOps[o] \o " " \o Places[r] : l \in DOMAIN Places, o \in DOMAIN MOps, r \in DOMAIN Places}
           \cup {Temps[l] \o " " \o MOps[o] \o " " \o Places[r] : l \in DOMAIN Temps, o \in DOMAIN MOps, r \in DOMAIN Places}
           \cup {Places[l] \o " " \o MOps[o] \o " " \o Temps[r] : l \in DOMAIN Places, o \in DOMAIN MOps, r \in DOMAIN Temps}
           \cup UNION {{MUn(Places[l])[j] : j \in 1..15} : l \in DOMAIN Places}
+\* calls whose body reads unset locals and null parameters (evaluated twice: fresh, then recycled callee context)
+          \cup {"FL(1)", "FL(500)", "FL(VI)", "FP(null, 1)", "FP(int(), str())", "FP(VNI, VNS)", "FP(VN, VUN)", "FP(VI, VNB)"}
+\* an in-place member applied to a value DERIVED from a place (a conversion, a function of it, a part of it) must not reach the place
+          \cup {f[1] \o x \o f[2] \o mm : f \in SFns, x \in SPlaces, mm \in SMuts}
+          \cup {f[1] \o "VR" \o f[2] \o mm : f \in {<<"raw(", ")">>, <<"FO(", ")">>, <<"subraw(", ", 0)">>, <<"b64dec(b64enc(", "))">>}, mm \in {".concat(66)", ".put(0, 66)", ".delete(0)", ".insert(0, 66)"}}
+          \cup {"FO(VT)" \o mm : mm \in {".concat(2)", ".put(0, 9)", ".delete(0)", ".insert(0, 9)"}} \cup {"FO(VU).set@1(5)", "FO(VTT).at(0).concat(7)", "FO(VTU).at(0).set@1(9)", "tab(1, VT).at(0).concat(2)", "tup(VT, 1)@1.concat(2)"}
 \* (x).concat(x) changes its receiver by definition: only for receivers that are not places
           \cup {MUn(Temps[l])[16] : l \in DOMAIN Temps} \cup {"null.concat(\"a\")", "\"lit\".concat(\"a\")", "str().concat(\"a\")", "tab(1, 1).concat(2)", "raw(1, 65).concat(66)"}
 Flat(ss) == LET F[i \in 0..Len(ss)] == IF i = 0 THEN <<>> ELSE F[i - 1] \o ss[i] IN F[Len(ss)]
@@ -85,7 +100,7 @@ MChunk == 40
 MScenario(c) ==
   LET lo == c * MChunk + 1  hi == IF lo + MChunk - 1 > Len(MSeq) THEN Len(MSeq) ELSE lo + MChunk - 1 IN
   [prop |-> "C05", key |-> "M",
-   steps |-> << [op |-> "exec", ctx |-> 0, free |-> TRUE, text |-> MPrelude], [op |-> "dump", ctx |-> 0, free |-> TRUE] >>
+   steps |-> << [op |-> "exec", ctx |-> 0, free |-> TRUE, prelude |-> TRUE, text |-> MPrelude], [op |-> "dump", ctx |-> 0, free |-> TRUE] >>
              \o Flat([j \in 1..(hi - lo + 1) |-> << [op |-> "expr", ctx |-> 0, twice |-> TRUE, text |-> MSeq[lo + j - 1]],
                                                     [op |-> "dump", ctx |-> 0, unchanged_since |-> 2] >>])]
 VARIABLE p
